@@ -54,7 +54,7 @@ def fuzz_work(job):
     for sd in seeds:
         rng = random.Random(sd)
         dm = rng.choice(['lua', 'promela', 'null'])
-        ch, hist = c01lib.make_case(sd % 1000003, dm if dm != 'promela' else 'lua')
+        ch, hist = c01lib.make_case(sd % 1000003, dm)
         ops = []
         n = rng.randint(3, 40)
         alive = True; stepped = False
@@ -172,7 +172,7 @@ def reset_work(job):
     for sd in seeds:
         rng = random.Random(sd)
         dm = rng.choice(['lua', 'promela'])
-        ch, h1 = c01lib.make_case(sd % 1000003, 'lua')
+        ch, h1 = c01lib.make_case(sd % 1000003, 'lua', evcond=False)
         h2 = [rng.choice(C.EVENTS) for _ in range(rng.randint(1, 4))]
         ref = c01lib.ref_run(ch, h1); ref2 = c01lib.ref_run(ch, h2)
         if ref.diverged or ref2.diverged: continue
